@@ -25,7 +25,7 @@ ASSUMPTIONS = ["env.X is by definition the published transformed table; tables w
                "(3 + 2*window days) are not 'daily or finer' and are not generated",
                "a configuration with too little data may be refused at construction (counted as config-rejected)"]
 REQUIRED = ["C18:observation", "C18:bounds", "C18:step-date", "C18:quotes", "C18:rate", "C18:full-window", "C18:published-table"]
-REQUIRED_CATS = ["rate-off-price-dates", "window>1", "stride", "late-fold", "calendar:LSE", "calendar:NYSE", "transformer:None", "transformer:z-score",
+REQUIRED_CATS = ["fold-after-holiday-cluster", "rate-off-price-dates", "window>1", "stride", "late-fold", "calendar:LSE", "calendar:NYSE", "transformer:None", "transformer:z-score",
                  "transformer:yeo-johnson"]
 TECHNIQUE = "runtime monitoring: observations, quotes and step dates of real episodes compared at every call with the tables the environment was given"
 LEVEL_TEXT = ("Exploration over generated table shapes and options; at every call of every episode the observation, the traded quotes, "
@@ -51,6 +51,14 @@ def case(ctx, i, tier):
     dY = pd.date_range(start, periods=n, freq=freq)
     offx = r.randint(-15, 15)
     dX = pd.date_range(start + pd.Timedelta(days=offx), periods=n + r.randint(-10, 10), freq=r.choice(["B", "D"]))
+    around_new_year = r.random() < 0.3
+    if around_new_year:
+        # a table spanning Christmas / New Year, used below with a fold that starts on the first sessions of January
+        start = pd.Timestamp(r.choice([2018, 2019, 2020]), 11, 1) + pd.Timedelta(days=r.randint(0, 20))
+        n = max(n, 70)
+        freq = "B"
+        dY = pd.date_range(start, periods=n, freq=freq)
+        dX = pd.date_range(start - pd.Timedelta(days=r.randint(0, 15)), periods=n + r.randint(10, 20), freq="B")
     nf = r.randint(1, 4)
     ny = r.randint(1, 3)
     X = pd.DataFrame(rng.normal(0, 2, [len(dX), nf]), dX, columns=["f%d" % j for j in range(nf)])
@@ -62,7 +70,7 @@ def case(ctx, i, tier):
     for _ in range(r.randint(0, 4)):
         Y.iloc[r.randrange(1, n - 1), r.randrange(ny)] = np.nan
         nnan += 1
-    if r.random() < 0.3:
+    if r.random() < 0.3 and not around_new_year:
         X = X.drop(X.index[r.sample(range(len(dX)), 3)])
     window = r.choice([1, 1, 2, 3, 7, 15, 30])
     stride = r.choice([None, None, 1, 2, 3, 5])
@@ -79,6 +87,16 @@ def case(ctx, i, tier):
     if r.random() < 0.4:
         a = dY[r.randint(n // 3, n // 2)]
         folds = {"training-set": [a.to_pydatetime(), dY[-1].to_pydatetime()]}
+    if around_new_year:
+        # market data has no rows on exchange holidays; the fold starts right after the holiday cluster
+        H0 = hol(cal)
+        X = X[[t not in H0 for t in X.index]]
+        Y = Y[[t not in H0 for t in Y.index]]
+        jan = [t for t in Y.index if t.month == 1 and t.day <= 6]
+        if jan:
+            folds = {"training-set": [r.choice(jan[:3]).to_pydatetime(), Y.index[-1].to_pydatetime()]}
+            window = r.choice([7, 15, 30])
+            ctx.cat("fold-after-holiday-cluster")
     rate = pd.Series(rng.uniform(-0.01, 0.04, n), dY, name="rr") if r.random() < 0.5 else None   # negative fixings are valid rates
     if rate is not None and r.random() < 0.4:
         # fixings published on their own cadence (every 2nd / 3rd calendar day): many are dated on days
